@@ -64,7 +64,7 @@ var allow = []string{
 	"cosmossdk.io/store/prefix!",
 	"sort", "strings", "bytes", "math/bits", "slices", "golang.org/x/exp/slices", "cmp",
 	"unicode/utf8", "unicode", "errors", "encoding/binary", "strconv", "context", "math",
-	"golang.org/x/exp/constraints", "internal/bytealg", "internal/stringslite", "iter",
+	"golang.org/x/exp/constraints", "golang.org/x/exp/maps", "maps", "internal/bytealg", "internal/stringslite", "iter",
 }
 
 type Loaded struct {
